@@ -18,19 +18,31 @@ int g_last_mo;
 #define kReaderBits INT_MAX
 #define kTryLockDrainSpins KDRAINSPINS
 #define kSpinBeforeYield KSPINYIELD
-typedef struct RWLockImpl { int word; } RWLockImpl;      /* event_.intrusiveStatus() */
+/* the ghost decomposition lives in the lock object (one per lock: DistributedRWLockImpl, C23, has an array of them); g_self is
+ * the lock the current call works on: R17 renders `obj.method()` as `(g_self = &obj, RW_method(g_self))` */
+typedef struct RWLockImpl { int word;      /* event_.intrusiveStatus() */
+  int readers_other, trans_other, mine_count; bool bit_other, excl_other, bit_mine, excl_mine, hold_read_mine; } RWLockImpl;
 RWLockImpl* g_self;
-int g_readers_other, g_trans_other, g_mine_count;
-bool g_bit_other, g_excl_other, g_bit_mine, g_excl_mine, g_hold_read_mine;
+#define g_readers_other (g_self->readers_other)
+#define g_trans_other (g_self->trans_other)
+#define g_mine_count (g_self->mine_count)
+#define g_bit_other (g_self->bit_other)
+#define g_excl_other (g_self->excl_other)
+#define g_bit_mine (g_self->bit_mine)
+#define g_excl_mine (g_self->excl_mine)
+#define g_hold_read_mine (g_self->hold_read_mine)
 bool g_viol;                    /* guarantee violated by this thread */
 bool g_bad_order;
 unsigned g_wakes; bool g_need_wake;   /* a reader release that drops the count to zero under a set bit must wake the draining writer */
 _Bool nondet_bool(void); int nondet_int(void);
 #define CNT_MAX 1000
-#define WORD_OF() (((g_bit_mine || g_bit_other) ? kWriteBit : 0) | (g_readers_other + g_trans_other + g_mine_count))
-#define WORD_OK (g_readers_other >= 0 && g_readers_other < CNT_MAX && g_trans_other >= 0 && g_trans_other < CNT_MAX && g_mine_count >= 0 && g_mine_count <= 2 && !(g_bit_mine && g_bit_other) && g_self->word == WORD_OF())
-#define EXCL_INV ((!g_excl_mine || (g_bit_mine && g_readers_other == 0 && !g_excl_other && !g_hold_read_mine_strict)) && (!g_excl_other || (g_bit_other && g_readers_other == 0 && !g_hold_read_mine)))
-#define g_hold_read_mine_strict 0
+/* invariants of one lock object s (the unparameterised forms speak about the current lock g_self) */
+#define WORD_OF_(s) ((((s)->bit_mine || (s)->bit_other) ? kWriteBit : 0) | ((s)->readers_other + (s)->trans_other + (s)->mine_count))
+#define WORD_OK_(s) ((s)->readers_other >= 0 && (s)->readers_other < CNT_MAX && (s)->trans_other >= 0 && (s)->trans_other < CNT_MAX && (s)->mine_count >= 0 && (s)->mine_count <= 2 && !((s)->bit_mine && (s)->bit_other) && (s)->word == WORD_OF_(s))
+#define EXCL_INV_(s) ((!(s)->excl_mine || ((s)->bit_mine && (s)->readers_other == 0 && !(s)->excl_other)) && (!(s)->excl_other || ((s)->bit_other && (s)->readers_other == 0 && !(s)->hold_read_mine)))
+#define WORD_OF() WORD_OF_(g_self)
+#define WORD_OK WORD_OK_(g_self)
+#define EXCL_INV EXCL_INV_(g_self)
 
 static void others_act(void) {
   int r = nondet_int(), t = nondet_int(); _Bool b = nondet_bool(), x = nondet_bool();
@@ -84,7 +96,7 @@ static void G_event_tryNotify(RWLockImpl* self) { g_wakes++; g_need_wake = 0; }
 
 #define PRE (self == g_self && WORD_OK && EXCL_INV && !g_viol && !g_bad_order && !g_need_wake)
 #define POST (WORD_OK && EXCL_INV && !g_viol && !g_bad_order && !g_need_wake)
-#define ASSIGNS __CPROVER_assigns(*self, g_readers_other, g_trans_other, g_mine_count, g_bit_other, g_excl_other, g_bit_mine, g_excl_mine, g_hold_read_mine, g_viol, g_bad_order, g_wakes, g_need_wake, g_last_mo)
+#define ASSIGNS __CPROVER_assigns(*self, g_viol, g_bad_order, g_wakes, g_need_wake, g_last_mo)
 
 void RW_readerRelease(RWLockImpl* self)
 __CPROVER_requires(PRE && g_mine_count >= 1)
@@ -97,6 +109,13 @@ __CPROVER_requires(PRE && !g_bit_mine)
 __CPROVER_ensures(POST && g_bit_mine && g_mine_count == __CPROVER_old(g_mine_count) && g_hold_read_mine == __CPROVER_old(g_hold_read_mine))
 ASSIGNS
 #include "RW_setWriteBit.body.inc"
+
+/* phase 1 of the distributed try_lock: claims the bit ignoring readers; fails only against another writer and then leaves no trace */
+bool RW_tryWriteBit(RWLockImpl* self)
+__CPROVER_requires(PRE && !g_bit_mine)
+__CPROVER_ensures(POST && RV == g_bit_mine && g_mine_count == __CPROVER_old(g_mine_count) && g_hold_read_mine == __CPROVER_old(g_hold_read_mine))
+ASSIGNS
+#include "RW_tryWriteBit.body.inc"
 
 void RW_waitForReaderDrain(RWLockImpl* self)
 __CPROVER_requires(PRE && g_bit_mine && g_mine_count == 0)
@@ -121,7 +140,7 @@ ASSIGNS
 #include "RW_try_lock.body.inc"
 
 void RW_unlock(RWLockImpl* self)
-__CPROVER_requires(PRE && g_bit_mine && g_excl_mine && g_mine_count <= 1)
+__CPROVER_requires(PRE && g_bit_mine && g_mine_count <= 1)
 __CPROVER_ensures(POST && !g_bit_mine && !g_excl_mine && g_mine_count == __CPROVER_old(g_mine_count) && g_hold_read_mine == __CPROVER_old(g_hold_read_mine))
 ASSIGNS
 #include "RW_unlock.body.inc"
@@ -129,13 +148,13 @@ ASSIGNS
 void RW_lock_shared(RWLockImpl* self)
 __CPROVER_requires(PRE && !g_bit_mine && g_mine_count == 0 && !g_hold_read_mine)
 /* read access only while no writer holds the lock */
-__CPROVER_ensures(POST && g_hold_read_mine && g_mine_count == 1 && !g_excl_other)
+__CPROVER_ensures(POST && g_hold_read_mine && g_mine_count == 1 && !g_excl_other && g_bit_mine == __CPROVER_old(g_bit_mine) && g_excl_mine == __CPROVER_old(g_excl_mine))
 ASSIGNS
 #include "RW_lock_shared.body.inc"
 
 bool RW_try_lock_shared(RWLockImpl* self)
 __CPROVER_requires(PRE && !g_bit_mine && g_mine_count == 0 && !g_hold_read_mine)
-__CPROVER_ensures(POST)
+__CPROVER_ensures(POST && g_bit_mine == __CPROVER_old(g_bit_mine) && g_excl_mine == __CPROVER_old(g_excl_mine))
 __CPROVER_ensures(RV ==> (g_hold_read_mine && g_mine_count == 1 && !g_excl_other))
 __CPROVER_ensures(!RV ==> (!g_hold_read_mine && g_mine_count == 0))
 ASSIGNS
@@ -143,7 +162,7 @@ ASSIGNS
 
 void RW_unlock_shared(RWLockImpl* self)
 __CPROVER_requires(PRE && g_hold_read_mine && g_mine_count == 1 && !g_bit_mine)
-__CPROVER_ensures(POST && !g_hold_read_mine && g_mine_count == 0)
+__CPROVER_ensures(POST && !g_hold_read_mine && g_mine_count == 0 && g_bit_mine == __CPROVER_old(g_bit_mine) && g_excl_mine == __CPROVER_old(g_excl_mine))
 ASSIGNS
 #include "RW_unlock_shared.body.inc"
 
@@ -159,7 +178,7 @@ __CPROVER_ensures(POST && !g_bit_mine && g_hold_read_mine && g_mine_count == 1)
 ASSIGNS
 #include "RW_lock_downgrade.body.inc"
 
-#ifdef VERIF_CBMC
+#if defined(VERIF_CBMC)
 static void mk(RWLockImpl* l, int mode) {
   /* mode 0: this thread holds nothing; 1: holds a read lock; 2: owns the bit (not yet exclusive); 3: holds the write lock */
   g_self = l; g_viol = 0; g_bad_order = 0; g_wakes = 0; g_need_wake = 0;
@@ -173,15 +192,18 @@ static void mk(RWLockImpl* l, int mode) {
   g_readers_other = r; g_trans_other = t; g_bit_other = b; g_excl_other = x;
   l->word = WORD_OF();
 }
+#ifndef C23_INCLUDE
 void h_RW_readerRelease(void) { RWLockImpl l; mk(&l, 1); RW_readerRelease(&l); }
+void h_RW_tryWriteBit(void) { RWLockImpl l; mk(&l, nondet_bool() ? 1 : 0); RW_tryWriteBit(&l); }
 void h_RW_setWriteBit(void) { RWLockImpl l; mk(&l, nondet_bool() ? 1 : 0); RW_setWriteBit(&l); }
 void h_RW_waitForReaderDrain(void) { RWLockImpl l; mk(&l, 2); RW_waitForReaderDrain(&l); }
 void h_RW_lock(void) { RWLockImpl l; mk(&l, 0); RW_lock(&l); }
 void h_RW_try_lock(void) { RWLockImpl l; mk(&l, 0); RW_try_lock(&l); }
-void h_RW_unlock(void) { RWLockImpl l; mk(&l, 3); RW_unlock(&l); }
+void h_RW_unlock(void) { RWLockImpl l; mk(&l, nondet_bool() ? 3 : 2); RW_unlock(&l); }
 void h_RW_lock_shared(void) { RWLockImpl l; mk(&l, 0); RW_lock_shared(&l); }
 void h_RW_try_lock_shared(void) { RWLockImpl l; mk(&l, 0); RW_try_lock_shared(&l); }
 void h_RW_unlock_shared(void) { RWLockImpl l; mk(&l, 1); RW_unlock_shared(&l); }
 void h_RW_lock_upgrade(void) { RWLockImpl l; mk(&l, 1); RW_lock_upgrade(&l); }
 void h_RW_lock_downgrade(void) { RWLockImpl l; mk(&l, 3); RW_lock_downgrade(&l); }
+#endif
 #endif
